@@ -73,10 +73,14 @@ int main (int argc, char** argv)
   // lag-0 obligations X(0) = C for every real mode type
   BoxMuller gasdev;
   fn ("lag0_mode", [&] { mode m; m.set_normal (&gasdev); m.set_Stokes (stokes_valid_in ("s"));
-    out_mat ("g", m.get_crosscovariance (0)); out_mat ("w", m.get_covariance ()); out_mat ("z", m.get_crosscovariance (1)); });
+    out_mat ("g", m.get_crosscovariance (0)); out_mat ("w", m.get_covariance ()); out_mat ("z", m.get_crosscovariance (1));
+    if (!symbolic) { Matrix<4,4,double> g = m.get_crosscovariance (0), w = m.get_covariance (); for (unsigned i=0; i<4; i++) for (unsigned j=0; j<4; j++) expect ("mode: get_crosscovariance(0) = get_covariance()", g[i][j], w[i][j]); } });
   fn ("lag0_lognormal", [&] { mode* m = new mode; m->set_normal (&gasdev); m->set_Stokes (stokes_valid_in ("s"));
     lognormal_mode ln (m, in ("beta", 0.5, 1.5));
-    out_mat ("g", ln.get_crosscovariance (0)); out_mat ("w", ln.get_covariance ()); out_mat ("z", ln.get_crosscovariance (1)); });
+    out_mat ("g", ln.get_crosscovariance (0)); out_mat ("w", ln.get_covariance ()); out_mat ("z", ln.get_crosscovariance (1));
+    if (!symbolic) { Matrix<4,4,double> g = ln.get_crosscovariance (0), w = ln.get_covariance (); for (unsigned i=0; i<4; i++) for (unsigned j=0; j<4; j++) expect ("lognormal_mode: get_crosscovariance(0) = get_covariance()", g[i][j], w[i][j]);
+      single sg (new lognormal_mode (new mode, 0.8)); sg.sample_size = 3; Matrix<4,4,double> sx = sg.get_crosscovariance (0), sc = sg.get_covariance ();
+      for (unsigned i=0; i<4; i++) for (unsigned j=0; j<4; j++) expect ("single sample of a lognormal mode: predicted cross-covariance at lag 0 = predicted covariance", sx[i][j], sc[i][j]); } });
   for (unsigned w=1; w<=3; w++) {
     fn (nm ("lag0_boxcar_w", w), [&, w] { mode* m = new mode; m->set_normal (&gasdev); m->set_Stokes (stokes_valid_in ("s"));
       lognormal_mode* ln = new lognormal_mode (m, in ("beta", 0.5, 1.5));
